@@ -299,12 +299,33 @@ def run(tier, seed):
     rng = random.Random(seed)
     obligations = C.proof_obligations("C14", MODULE, THEOREMS)
     cases = gen_cases(rng, tier)
-    impl, model = both(cases)
+    from .. import rustc_sweep as R
+    try:
+        impl, model = both(cases)
+    except C.CheckFailure as build_failure:
+        # the generated crate (or the interpreter it shares) no longer builds: before reporting the broken correspondence, look for
+        # a concrete builder program on which rustc and the type-state model disagree (the compile-time half of the property)
+        progs, mv, rv = R.sweep()
+        type_bad = [k for k in range(len(progs)) if mv[k] != rv[k]]
+        if not type_bad:
+            raise build_failure
+        k = type_bad[0]
+        payload = {"property": "C14", "seed": seed, "part": "types",
+                   "theorem_or_correspondence": "type-state correspondence: Model/Builder.v bstep/build_call vs rustc (compile-time rejection of at_least_times on ordered chains / then() after a non-exact count); "
+                                                "found while the generated crate no longer builds against the current tree",
+                   "program": R.describe(progs[k]), "model_says_well_typed": mv[k], "rustc_accepts": rv[k],
+                   "case": {"prog": progs[k]}, "disagreements": len(type_bad), "build_failure": build_failure.detail[-1500:]}
+        path = C.write_replay("C14", seed, payload)
+        C.write_evidence("C14", tier, seed, {"obligations": len(obligations) + 3, "discharged": len(obligations), "theorems": obligations,
+                                             "checker_cmd": f"./check C14 --tier {tier}", "trusted_base": C.TRUSTED_BASE,
+                                             "builder_programs_checked_against_rustc": len(progs), "evaluations": len(progs),
+                                             "distinct_nontrivial": len(progs), "rule": RULE}, time.time() - t0, 1)
+        C.violation("C14", path)
+        return 1
     tb = observed_orders(cases, impl)
     table_ok, table_info = check_table(tb)
     bad = [i for i, c in enumerate(cases) if proj_kinds(c, impl[i]) != proj_kinds(c, model[i])]
     # compile-time half: the type states of the builder against rustc (C14_no_at_least_on_ordered, C14_then_needs_exact)
-    from .. import rustc_sweep as R
     progs, mv, rv = R.sweep()
     type_bad = [k for k in range(len(progs)) if mv[k] != rv[k]]
     distinct = {canon({"t": c["tree"], "e": c["events"], "p": c["partial"]}): c for c in cases}
